@@ -25,6 +25,7 @@ func (g *generator) generateParallel(
 	// We use this to ensure that the expressions are evaluated
 	// in the order they were specified by the user.
 	exprs := make(map[ast.Expr]struct{})
+	g.usePos, g.hidden = p.Pos(), nil
 	fnMap := g.funcMap(file, addImports, aliases, exprs)
 	t := template.New(_parallelRootTmpl).Funcs(fnMap)
 	tmpl, err := t.ParseFS(tmplFS, _parallelTmplDir, _sharedTmplDir)
@@ -39,6 +40,9 @@ func (g *generator) generateParallel(
 	if err := tmpl.ExecuteTemplate(&b, _parallelRootTmpl, parallelTemplateData{
 		Parallel: p,
 	}); err != nil {
+		return err
+	}
+	if err := g.hiddenPackages(); err != nil {
 		return err
 	}
 
